@@ -583,10 +583,13 @@ class ChirpZTransformExecutor:
 def _prepare_czt_basis(N, M, K, shift, alpha, dtype, norm=False):
     m = fftrange(M, dtype=dtype)
     if shift != 0:
-        m += shift
+        m -= shift
 
     prefix = -1j * np.pi
-    a = np.exp(prefix * m*m * alpha)
+    # the post-chirp also carries the linear phase that shifting the *input* coordinates by the same amount
+    # produces, so that the transform is exp(-2i pi alpha (n - shift)(m - shift)): the convention of the
+    # matrix DFT, for which a forward/inverse pair with the same shift closes exactly
+    a = np.exp(prefix * (m*m - 2*shift*m) * alpha)
 
     n = fftrange(N, dtype=dtype)
     b = np.exp(prefix * n*n * alpha)
